@@ -173,6 +173,7 @@ struct simfd {
 	int werr_errno;       /* hard write error ... */
 	long werr_after;      /* ... once this many further writev calls happened (-1: none) */
 	int blocked;          /* last write could not be taken completely */
+	int linger_on, linger_secs; /* SO_LINGER as the daemon set it (accepted sockets inherit the listener's) */
 	unsigned long nwritev, neagain;
 	int listener;
 	struct sockaddr_storage peer;
@@ -457,10 +458,6 @@ int __wrap_listen(int fd, int backlog)
 
 int __wrap_setsockopt(int fd, int level, int optname, const void *optval, socklen_t optlen)
 {
-	(void)level;
-	(void)optname;
-	(void)optval;
-	(void)optlen;
 	struct simfd *f = live("setsockopt", fd, K_NONE);
 	if (!f) return -1;
 	if (f->kind != K_LISTENER && f->kind != K_STREAM) {
@@ -474,6 +471,11 @@ int __wrap_setsockopt(int fd, int level, int optname, const void *optval, sockle
 			errno = e;
 			return -1;
 		}
+	}
+	if (level == SOL_SOCKET && optname == SO_LINGER && optval != NULL && optlen >= sizeof(struct linger)) {
+		const struct linger *l = optval;
+		f->linger_on = l->l_onoff != 0;
+		f->linger_secs = l->l_linger;
 	}
 	return 0;
 }
@@ -570,6 +572,8 @@ int __wrap_accept(int fd, struct sockaddr *addr, socklen_t *len)
 	f->npending--;
 	struct simfd *c = &fds[cfd];
 	c->state = S_OPEN;
+	c->linger_on = f->linger_on;
+	c->linger_secs = f->linger_secs;
 	cur_read_fd = cfd; /* set-up of this connection is "its" processing */
 	trace_ev("[\"a\",%d,%d]", cfd, fd);
 	if (addr && len) {
@@ -856,6 +860,11 @@ int __wrap_close(int fd)
 		hygiene("close", fd, f->state == S_CLOSED ? "double close" : "descriptor not open");
 		errno = EBADF;
 		return -1;
+	}
+	if (f->kind == K_STREAM && f->linger_on && f->linger_secs > 0 && f->blocked && f->wbudget == 0 && !f->rst) {
+		/* close(2) with SO_LINGER waits (also on a non-blocking socket) until the peer has taken what is queued or the
+		 * time is over: the peer is not taking anything (the last write met a full queue), the whole daemon would sleep */
+		hygiene("close", fd, "would block: SO_LINGER is set and the peer has not taken what was sent");
 	}
 	f->state = S_CLOSED;
 	if (f->kind == K_STREAM || f->kind == K_TIMER) trace_ev("[\"c\",%d]", fd);
